@@ -5,14 +5,19 @@ namespace EaselModel.Buffer
 theorem abs_suffix_length (a : Abs) : a.suffix.length = a.src.length - a.cur := by
   simp [Abs.suffix]
 
-/-- Rebuild the simulation relation after an operation that keeps the anchor (in input coordinates) and its count. -/
-theorem R.of_keepA {P : Nat} {a a' : AState} {s s' : Sess} (r : R P a s)
-    (wf : WF s'.b) (pg : PG s'.b) (k : KeepA s.b s'.b) (aok : AnchOK s'.b)
-    (hsrc : a'.src = a.src) (hanch : a'.anchor = a.anchor) (hnanch : a'.nanchor = a.nanchor)
-    (hcur : s'.b.base + s'.b.pos = a'.cur) (hge : a.cur ≤ a'.cur)
+/-- Rebuild the simulation relation after an operation whose effect on the anchor record is `X` (in input coordinates). -/
+theorem R.of_keepX {P : Nat} {a a' : AState} {s s' : Sess} {X : Option Nat} (r : R P a s)
+    (wf : WF s'.b) (pg : PG s'.b) (k : KeepX X s.b s'.b) (aok : AnchOK s'.b)
+    (hX : s.b.hasfp = true → X = a'.anchor) (hXn : s.b.hasfp = false → X = none)
+    (hsrc : a'.src = a.src) (hsub : ∀ A, a'.anchor = some A → a.anchor = some A)
+    (hnanch : a'.anchor ≠ none → a'.nanchor = a.nanchor)
+    (hcur : s'.b.base + s'.b.pos = a'.cur)
     (hlp : s'.lastp.map (s'.b.base + ·) = a'.lastp)
-    (hlple : ∀ p, a'.lastp = some p → a.cur ≤ p ∧ p ≤ a'.cur) : R P a' s' := by
-  refine ⟨wf, pg, aok, r.nfa.keepA k, by rw [k.src, r.src, hsrc], hcur, by rw [k.ps]; exact r.ps, ?_, ?_, ?_, ?_, hlp, ?_⟩
+    (hlple : ∀ p, a'.lastp = some p → p ≤ a'.cur) : R P a' s' := by
+  refine ⟨wf, pg, aok, ?_, by rw [k.src, r.src, hsrc], hcur, by rw [k.ps]; exact r.ps, ?_, ?_, ?_, ?_, hlp, hlple⟩
+  · intro hf
+    rw [k.hasfp] at hf
+    exact (absAnchor_eq_none s'.b).mp (by rw [k.anch]; exact hXn hf)
   · rw [k.hasfp, k.mode]; exact r.modefp
   · intro hf
     rw [k.hasfp] at hf
@@ -20,23 +25,28 @@ theorem R.of_keepA {P : Nat} {a a' : AState} {s s' : Sess} (r : R P a s)
   · intro hf
     rw [k.hasfp] at hf
     obtain ⟨r1, r2⟩ := r.anch hf
-    refine ⟨by rw [k.anch, r1, hanch], fun hne => ?_⟩
-    rw [hanch] at hne
-    rw [hnanch, ← r2 hne]
-    apply k.nanch
-    intro hnone
-    apply hne
-    rw [← r1]; exact (absAnchor_eq_none s.b).mpr hnone
+    refine ⟨by rw [k.anch, hX hf], fun hne => ?_⟩
+    have hXne : X ≠ none := by rw [hX hf]; exact hne
+    rw [k.nanch hXne, hnanch hne]
+    apply r2
+    cases ha' : a'.anchor with
+    | none => exact absurd ha' hne
+    | some A => rw [hsub A ha']; simp
   · intro A hA
-    rw [hanch] at hA
-    rw [hnanch]
-    obtain ⟨x1, x2⟩ := r.aanch A hA
-    exact ⟨Nat.le_trans x1 hge, x2⟩
-  · intro p hp
-    obtain ⟨y1, y2⟩ := hlple p hp
-    refine ⟨y2, fun A hA => ?_⟩
-    rw [hanch] at hA
-    exact Nat.le_trans (r.aanch A hA).1 y1
+    have hne : a'.anchor ≠ none := by rw [hA]; simp
+    rw [hnanch hne]
+    exact r.aanch A (hsub A hA)
+
+/-- Rebuild the simulation relation after an operation that keeps the anchor (in input coordinates) and its count. -/
+theorem R.of_keepA {P : Nat} {a a' : AState} {s s' : Sess} (r : R P a s)
+    (wf : WF s'.b) (pg : PG s'.b) (k : KeepA s.b s'.b) (aok : AnchOK s'.b)
+    (hsrc : a'.src = a.src) (hanch : a'.anchor = a.anchor) (hnanch : a'.nanchor = a.nanchor)
+    (hcur : s'.b.base + s'.b.pos = a'.cur) (hge : a.cur ≤ a'.cur)
+    (hlp : s'.lastp.map (s'.b.base + ·) = a'.lastp)
+    (hlple : ∀ p, a'.lastp = some p → a.cur ≤ p ∧ p ≤ a'.cur) : R P a' s' :=
+  r.of_keepX wf pg k.toKeepX aok (fun hf => by rw [(r.anch hf).1, hanch])
+    (fun hf => (absAnchor_eq_none s.b).mpr (r.nfa hf)) hsrc (fun A hA => by rw [← hanch]; exact hA) (fun _ => hnanch) hcur hlp
+    (fun p hp => (hlple p hp).2)
 
 theorem R.abs_eq {P : Nat} {a : AState} {s : Sess} (r : R P a s) : s.b.abs = a.abs := by
   simp only [Buf.abs, AState.abs, r.src, r.cur]
